@@ -797,4 +797,14 @@ class FlowParser:
         if not len(self.node_group_stack) == 1:
             LOGGER.critical("Unexpected end of flow. Did you forget end_for/end_block?")
         self.current_node_group().add_nodes_to_flow(flow_container)
+        # Rows sharing a node uuid must have been merged into a single node.
+        node_uuids = set()
+        for node in flow_container.nodes:
+            if node.uuid in node_uuids:
+                LOGGER.critical(
+                    f'Node uuid "{node.uuid}" is used by more than one node of flow'
+                    f' "{self.flow_name}". Rows can only share a node uuid if they'
+                    " are merged into a single node."
+                )
+            node_uuids.add(node.uuid)
         return flow_container
